@@ -25,8 +25,10 @@ META = {
             "retry strategy is exercised as retry-then-abort through the unable-to-deliver handler. Instances are "
             "bounded (<= 2 live publishers/subscribers in the model, <= 3 in executions, <= 4 loans per model run); "
             "the expired-connection buffer is configured large enough that its documented overflow loss cannot occur. "
-            "A publisher that is dropped before a subscriber ever attached to its connection loses the samples in "
-            "flight - the specification follows the code here. The borrow limit is per connection, as implemented. "
+            "The specification follows the documentation; the code's loss of samples when a publisher is dropped "
+            "before a registered subscriber attached to their connection is accepted only as a tagged known-defect "
+            "shape and reported with the signature pubsub:sample-lost:publisher-dropped-before-subscriber-attached "
+            "(known_findings.json); every other loss is an unlisted violation. "
             "Trusted: TLC, the driver's mapping of port ids / payload canaries to small indices.",
     "design_ref": "DESIGN.md 5 C01, 2.2, 3.3, 3.4",
     "replay": True,
